@@ -334,6 +334,29 @@ Proof.
     + intros cur lo hi Hhi. now apply holds_write.
 Qed.
 
+(** The resize pre-flight's operation: [set_len] of an export image to its declared length. *)
+Definition entry_setlen (o : op) : Prop := exists e, nonpad e /\ o = SetLen (e_target e) (e_len e).
+
+Lemma SI_setlen f o f' ok : SI f -> entry_setlen o -> apply_op f o = (f', ok) -> SI f'.
+Proof.
+  intros HS (e & Hne & ->) Ha. pose proof (apply_op_fresh f _ f' ok Ha) as Hfr.
+  apply (SI_content_step f f' e (fun cur => resize cur (N.to_nat (e_len e))) HS Hne Hfr).
+  - intros p. destruct (apply_op_lookup f _ f' ok p Ha) as [He|[_ []]]. exact He.
+  - intros j. destruct (apply_op_content f _ f' ok j Ha) as [He|[Hl Hc]]; [now left|right; auto].
+  - intros old cur. apply inv_resize.
+  - intros cur lo hi Hhi. now apply holds_resize.
+Qed.
+
+(** Applying a list of operations one after the other (whether each succeeds or not). *)
+Fixpoint apply_ops (f : fs) (ops : list op) : fs :=
+  match ops with [] => f | o :: r => apply_ops (fst (apply_op f o)) r end.
+
+Lemma SI_apply_setlens ops : Forall entry_setlen ops -> forall f, SI f -> SI (apply_ops f ops).
+Proof.
+  induction 1 as [|o r Ho _ IH]; intros f HS; cbn [apply_ops]; [exact HS|].
+  apply IH. destruct (apply_op f o) as [f' ok] eqn:Ea. cbn [fst]. exact (SI_setlen f o f' ok HS Ho Ea).
+Qed.
+
 (** ** Every reachable state *)
 
 Lemma good_cut_of_good_write pc p off d n : good_op content pc (WriteAt p off d) -> good_cut content pc (WriteAt p off (firstn n d)).
